@@ -632,4 +632,34 @@ func modeUfsDir(tier string, args []string) {
 			_ = os.RemoveAll(dpath)
 		}
 	}
+	// an entry that does not fit into one reply: the server answers with an error, and the client's
+	// Readdir reports it - it must not present the entries read so far as the complete listing
+	for _, du := range []bool{false, true} {
+		for _, pos := range []int{0, 7, 15} {
+			dname := fmt.Sprintf("small%d%d", b2i(du), pos)
+			dpath := filepath.Join(root, dname)
+			_ = os.MkdirAll(dpath, 0o755)
+			for i := 0; i < 16; i++ {
+				nm := fmt.Sprintf("e%02d", i)
+				if i == pos {
+					nm = fmt.Sprintf("e%02d-", i) + strings.Repeat("L", 235)
+				}
+				_ = os.WriteFile(filepath.Join(dpath, nm), nil, 0o644)
+			}
+			s, err := newUfsSession(root, 280, du)
+			if err != nil {
+				continue
+			}
+			rerr := false
+			if f, err := s.clnt.FOpen(dname, go9p.OREAD); err == nil {
+				dirs, err := f.Readdir(0)
+				rerr = err != nil
+				emit("RDSMALL %d %d %d ERR %d COUNT %d", b2i(du), 280, pos, b2i(rerr), len(dirs))
+				_ = f.Close()
+			}
+			s.close()
+			_ = os.RemoveAll(dpath)
+			stat("ufsdir.too_small_cases", 1)
+		}
+	}
 }
